@@ -880,6 +880,13 @@ func (e *Env) evalCall(x ECall) (tval, error) {
 		if _, ok := refElem(v.T); !ok {
 			return tval{}, fmt.Errorf("allocated of a non-reference value")
 		}
+		if e.noteDistinct && e.st.brk == "brk0" {
+			// assumed at entry: the object predates everything the function allocates; the generator can then
+			// resolve loads from it across writes to younger objects (birth clock 0)
+			if _, ok := e.vc().birth[v.C[0]]; !ok {
+				e.vc().birth[v.C[0]] = 0
+			}
+		}
 		return tval{T: boolT, C: []string{app("<", v.C[0], e.st.brk)}}, nil
 	case "alloc":
 		// alloc(p): identity of the allocation a pointer/slice points into
